@@ -18,7 +18,8 @@ class C17(Prop):
             "or numbers of contracts) and discrete spaces, delays 0..3; at a random step a malformed action is "
             "injected: wrong length, out of bounds by one ulp and by a lot, NaN entry, negative / too large / "
             "non-integer index, a vector for a discrete space, an index for a box space, arbitrary Python objects; "
-            "in-space actions exactly on the bounds. Non-trivial = a malformed action was injected (and became due), "
+            "in-space actions exactly on the bounds; box spaces whose contracts have their own bounds (array low / high) with an "
+            "entry outside the bounds of its own contract but inside the loosest bounds of the vector. Non-trivial = a malformed action was injected (and became due), "
             "or an in-space action on a bound, or a cash entry in the action; distinct = distinct cases")
     rule = rule + es.CONTEXT_RULE
     nontrivial_tags = {"malformed-due", "on-bound", "cash-entry", "nr-contracts"}
@@ -39,6 +40,14 @@ class C17(Prop):
             if not as_w:
                 lo, hi = "-50", "50"
             case["space"] = dict(kind="box", low=lo, high=hi, keys=skeys, asWeights=int(as_w), fractional=1, margin="0")
+            if as_w and len(skeys) > 1 and rng.random() < 0.3:
+                # every contract has its own bounds (array `low` / `high`): e.g. one long-only leg capped at 30 %
+                pool = [("-1", "1"), ("0", "1"), ("0", "3/10"), ("-1/2", "0"), ("-3/2", "2"), ("0", "1/2")]
+                bs = [rng.choice(pool) for _ in skeys]
+                if len(set(bs)) == 1:
+                    bs[0] = ("0", "3/10") if bs[0] != ("0", "3/10") else ("-1", "1")
+                case["space"]["lows"] = [b[0] for b in bs]
+                case["space"]["highs"] = [b[1] for b in bs]
         else:
             allocs = [[fr(Fraction(rng.randint(-4, 8), 8)) for _ in keys] for _ in range(rng.randint(2, 5))]
             allocs[0] = ["0"] * len(keys)
@@ -55,12 +64,17 @@ class C17(Prop):
         case["ops"] = ops
         return case
 
+    @staticmethod
+    def bounds(sp):
+        if sp.get("lows") is not None:
+            return [(Fraction(a), Fraction(b)) for a, b in zip(sp["lows"], sp["highs"])]
+        return [(Fraction(sp["low"]), Fraction(sp["high"]))] * len(sp["keys"])
+
     def wellformed(self, rng, sp):
         if sp["kind"] == "box":
-            lo, hi = Fraction(sp["low"]), Fraction(sp["high"])
             n = len(sp["keys"])
             v = []
-            for _ in range(n):
+            for lo, hi in self.bounds(sp):
                 c = rng.random()
                 if c < 0.15:
                     x = hi
@@ -80,6 +94,20 @@ class C17(Prop):
             n = len(sp["keys"])
             kind = rng.choice(["short", "long", "above-ulp", "below-ulp", "far", "nan", "nan", "index", "junk"])
             base = [fr(F(lo + (hi - lo) / 2))] * n
+            if sp.get("lows") is not None:
+                bs = self.bounds(sp)
+                base = [fr(F(float(a + (b - a) / 2))) for a, b in bs]
+                if kind in ("above-ulp", "below-ulp", "far", "nan") or rng.random() < 0.5:
+                    # outside the bounds of its own contract, inside the loosest bounds of the whole vector
+                    glo, ghi = min(a for a, _ in bs), max(b for _, b in bs)
+                    cands = [(i, x) for i, (a, b) in enumerate(bs)
+                             for x in ([ghi] if b < ghi else []) + ([glo] if a > glo else [])
+                             + ([float(b) + (float(ghi) - float(b)) / 4] if b < ghi else [])
+                             + ([math.nextafter(float(b), math.inf)] if b < ghi else [])
+                             + ([math.nextafter(float(a), -math.inf)] if a > glo else [])]
+                    if cands:
+                        i, x = rng.choice(cands)
+                        v = list(base); v[i] = fr(F(float(x))); return ["step", v]
             # a bad entry in the *cash* slot is the sneaky one: the allocation ignores that slot
             pick = (lambda: sp["keys"].index("USD")) if "USD" in sp["keys"] and rng.random() < 0.6 else (lambda: rng.randrange(n))
             if kind == "short":
@@ -117,8 +145,7 @@ class C17(Prop):
                 return False
             if len(op[1]) != len(sp["keys"]) or any(v == "nan" for v in op[1]):
                 return False
-            lo, hi = F(float(Fraction(sp["low"]))), F(float(Fraction(sp["high"])))
-            return all(lo <= F(float(Fraction(v))) <= hi for v in op[1])
+            return all(F(float(lo)) <= F(float(Fraction(v))) <= F(float(hi)) for v, (lo, hi) in zip(op[1], self.bounds(sp)))
         return op[0] == "stepi" and 0 <= op[1] < len(sp["allocs"])
 
     def run_impl(self, case):
@@ -143,9 +170,10 @@ class C17(Prop):
                            clause="an action outside the space is rejected no later than the step at which it is due: no trade, no record entry")
                 break  # the queue has shifted; later behaviour is compared by the correspondence only
             if due is not None and sp["kind"] == "box" and due[0] == "step":
-                lo, hi = Fraction(sp["low"]), Fraction(sp["high"])
-                if any(Fraction(v) in (lo, hi) for v in due[1]):
+                if any(Fraction(v) in b for v, b in zip(due[1], self.bounds(sp))):
                     r.tags.add("on-bound")
+                if sp.get("lows") is not None:
+                    r.tags.add("per-contract-bounds")
             if st == "err rejected" and "does not belong" in (o.get("exc") or ""):
                 r.fail("in-space-action-rejected", step=i, action=due, theorem="contains_box / contains_discrete")
             if st.startswith("ok") and o.get("traded"):
